@@ -946,8 +946,11 @@ namespace
             else if (sel == 1) i = m.size() + 1;
             else if (sel == 2) i = nblocks(m.size()) * W - (nblocks(m.size()) ? 1 : 0);   // last bit of the last block
             else if (sel == 3) i = nblocks(m.size()) * W;
+            // indices that are negative when read as a signed number: SIZE_MAX - k, 2^63 + k, size() - 1 for an empty bitset
+            else if (sel == 5) i = ~static_cast<size_t>(0) - static_cast<size_t>((st.a >> 3) % 4);
+            else if (sel == 6) i = (static_cast<size_t>(1) << 63) + static_cast<size_t>((st.a >> 3) % 64);
             else i = static_cast<size_t>((st.a >> 3) % (limit + 1));
-            const char* cls = i < m.size() ? "in_range" : (i < nblocks(m.size()) * W ? "in_slack_of_last_block" : "beyond_blocks");
+            const char* cls = i < m.size() ? "in_range" : (i < nblocks(m.size()) * W ? "in_slack_of_last_block" : (i > (~static_cast<size_t>(0) >> 1) ? "beyond_PTRDIFF_MAX" : "beyond_blocks"));
             Scope sc(*this, st, "at", cls, t);
             if (i >= m.size() && i < nblocks(m.size()) * W) SIM_PROBE("at_in_slack_of_last_block");
             bool threw = false, cthrew = false, got = false, cgot = false;
